@@ -1,3 +1,10 @@
+pub mod c06;
+pub mod c07;
+pub mod c08;
+pub mod c09;
+pub mod c10;
+pub mod c15;
+pub mod c16;
 pub mod c17;
 pub mod tseq;
 
